@@ -113,6 +113,19 @@ def run(ctx: Ctx):
     rets = [n for n in own_nodes(un.node) if isinstance(n, ast.Return)]
     vals = sorted(ast.unparse(r.value) for r in rets)
     ctx.ob("C13-O3", "R29 EXACTLY-ONCE", un, "union returns False without merging when the roots coincide, True after a merge", vals == ["False", "True"], f"{vals}", node=un.node)
+    # kruskal accepts an edge iff union() merged: find must return the true root and compress without splitting a tree
+    from .c20 import field_writes
+
+    find = ctx.func("utils.data_structures", "UnionFind.find")
+    w = field_writes(find).get("_parent", [])
+    fcfg = cfg_of(find.node)
+    okf = len(w) == 1 and isinstance(w[0], ast.Assign) and ast.unparse(w[0]) == "self._parent[x] = self.find(self._parent[x])"
+    if okf:
+        okf = atom_of("self._parent[x] != x") in GuardView(fcfg).guard_atoms(fcfg.node_of(w[0]))
+    rets = [ast.unparse(n.value) for n in own_nodes(find.node) if isinstance(n, ast.Return)]
+    ctx.ob("C13-O3", "R27 WRITE-OWNERSHIP", find, "find's only write re-points x at the root returned by the recursive find; it returns that root", okf and rets == ["self._parent[x]"], "a compression step that re-points a non-root ancestor splits its subtree off: union() then merges 'different' components that are one, and kruskal accepts a cycle edge", node=find.node)
+    ut = ast.unparse(un.node)
+    ctx.ob("C13-O3", "R29 EXACTLY-ONCE", un, "union links one root under the other root (never a non-root element)", "rx, ry = (self.find(x), self.find(y))" in ut and "self._parent[ry] = rx" in ut and ut.count("self._parent[") == 1, "", node=un.node)
     generic_sweeps(ctx)
 
 
@@ -161,7 +174,14 @@ def _t_reformat(tree):
     pass
 
 
+def _v_find_halving(tree):
+    g = M.find_func(tree, "UnionFind.find")
+    g.body = M.stmts("while self._parent[x] != x:\n    x = self._parent[x] = self._parent[self._parent[x]]\nreturn x")
+
+
 VARIANTS = [
+    M.Variant("find rewritten with a broken path-halving chain assignment (seed C13-A)", "solvor/utils/data_structures.py", _v_find_halving, "C13-O3"),
+
     M.Variant("kruskal sorts by an endpoint", MS, _v_sort_other_key, "C13-O1"),
     M.Variant("kruskal sorts descending", MS, _v_sort_reverse, "C13-O1"),
     M.Variant("kruskal accepts edges regardless of union()", MS, _v_accept_all, "C13-O1"),
